@@ -488,10 +488,15 @@ static const char *canonical_module_name(const char *path) {
 }
 
 /* Register an extern function in the codegen extern table and NVM import table */
+/* Declared externs pass a tag array of EXTERN_MAX_PARAMS entries (every parameter's tag is recorded:
+ * the import entry copies param_count of them into the module). */
+#define EXTERN_MAX_PARAMS 256
+
 static void register_extern(CG *cg, const char *name, const char *module_name,
                            uint16_t param_count, uint8_t return_tag,
                            const uint8_t *param_tags) {
     if (cg->extern_count >= MAX_EXTERNS) return;
+    if (param_count > EXTERN_MAX_PARAMS) param_count = EXTERN_MAX_PARAMS;
 
     /* Add to NVM import table */
     uint32_t mod_str = nvm_add_string(cg->module, module_name, (uint32_t)strlen(module_name));
@@ -2727,8 +2732,8 @@ CodegenResult codegen_compile(ASTNode *program, Environment *env,
             uint8_t ret_tag = type_to_tag(item->as.function.return_type);
 
             /* Build param type tags */
-            uint8_t param_tags[16] = {0};
-            for (int p = 0; p < pc && p < 16; p++) {
+            uint8_t param_tags[EXTERN_MAX_PARAMS] = {0};
+            for (int p = 0; p < pc && p < EXTERN_MAX_PARAMS; p++) {
                 param_tags[p] = type_to_tag(item->as.function.params[p].type);
             }
 
@@ -2843,8 +2848,8 @@ CodegenResult codegen_compile(ASTNode *program, Environment *env,
                         if (extern_find(&cg, ename) < 0) {
                             uint16_t pc = (uint16_t)mitem->as.function.param_count;
                             uint8_t ret_tag = type_to_tag(mitem->as.function.return_type);
-                            uint8_t param_tags[16] = {0};
-                            for (int p = 0; p < pc && p < 16; p++) {
+                            uint8_t param_tags[EXTERN_MAX_PARAMS] = {0};
+                            for (int p = 0; p < pc && p < EXTERN_MAX_PARAMS; p++) {
                                 param_tags[p] = type_to_tag(mitem->as.function.params[p].type);
                             }
                             register_extern(&cg, ename, mod_path ? mod_path : "",
@@ -2946,8 +2951,8 @@ CodegenResult codegen_compile(ASTNode *program, Environment *env,
                         if (fn) {
                             uint16_t pc = (uint16_t)fn->param_count;
                             uint8_t ret_tag = type_to_tag(fn->return_type);
-                            uint8_t param_tags[16] = {0};
-                            for (int p = 0; p < pc && p < 16; p++) {
+                            uint8_t param_tags[EXTERN_MAX_PARAMS] = {0};
+                            for (int p = 0; p < pc && p < EXTERN_MAX_PARAMS; p++) {
                                 param_tags[p] = type_to_tag(fn->params[p].type);
                             }
                             register_extern(&cg, local_name, mod_name ? mod_name : "",
@@ -2963,8 +2968,8 @@ CodegenResult codegen_compile(ASTNode *program, Environment *env,
                                 fn->name[prefix_len] == '.') {
                                 uint16_t pc = (uint16_t)fn->param_count;
                                 uint8_t ret_tag = type_to_tag(fn->return_type);
-                                uint8_t param_tags[16] = {0};
-                                for (int p = 0; p < pc && p < 16; p++) {
+                                uint8_t param_tags[EXTERN_MAX_PARAMS] = {0};
+                                for (int p = 0; p < pc && p < EXTERN_MAX_PARAMS; p++) {
                                     param_tags[p] = type_to_tag(fn->params[p].type);
                                 }
                                 register_extern(&cg, fn->name, mod_name,
@@ -3015,8 +3020,8 @@ CodegenResult codegen_compile(ASTNode *program, Environment *env,
                     if (extern_find(&cg, ename) < 0) {
                         uint16_t pc = (uint16_t)mitem->as.function.param_count;
                         uint8_t ret_tag = type_to_tag(mitem->as.function.return_type);
-                        uint8_t param_tags[16] = {0};
-                        for (int p = 0; p < pc && p < 16; p++) {
+                        uint8_t param_tags[EXTERN_MAX_PARAMS] = {0};
+                        for (int p = 0; p < pc && p < EXTERN_MAX_PARAMS; p++) {
                             param_tags[p] = type_to_tag(mitem->as.function.params[p].type);
                         }
                         register_extern(&cg, ename, canonical_module_name(modules->module_paths[mi]),
